@@ -1,20 +1,37 @@
 #!/bin/bash
-# usage: mutant_batch.sh <ID>...   — confirm and evaluate the seeded defects found in /tmp/mut_<ID>/_out/m{1,2}_*
+# usage: [ROUND=2] mutant_batch.sh <ID>...   — confirm and evaluate the seeded defects found in
+#   round 1: /tmp/mut_<ID>/_out/m{1,2,3}_*    (names <ID>_m<k>)
+#   round 2: /tmp/mut2_<ID>/_out/m{1,2,3}_*   (names <ID>_r2m<k>)
+# MODE=confirm|run|both (default both).  CHECKS=target runs only the defect's own property check.
+# CHECKS="C01 C19" restricts the checks that are run against each defect (default: all claimed).
 cd /verif
 mkdir -p work/mutants
+R=${ROUND:-1}
 for id in "$@"; do
-  for k in 1 2; do
-    d=/tmp/mut_$id/_out
+  for k in 1 2 3; do
+    if [ "$R" = 2 ]; then d=/tmp/mut2_$id/_out; name=${id}_r2m$k; else d=/tmp/mut_$id/_out; name=${id}_m$k; fi
     [ -f $d/m${k}_patch.diff ] || continue
-    name=${id}_m$k
     feats=""
     grep -qi "features devices\|--features devices" $d/m${k}_demo.rs $d/m${k}_meta.txt 2>/dev/null && feats="--features devices"
-    [ "$name" = "C19_m1" ] && feats="--demo-args --no-default-features\ --features\ std"
-    [ "$name" = "C19_m2" ] && feats="--demo-args --no-default-features\ --features\ alloc,libm"
-    echo "=== $name ($feats)"
-    eval python3 tools/mutants.py confirm $d/m${k}_patch.diff $d/m${k}_demo.rs $feats > work/mutants/$name.confirm 2>&1
-    tail -1 work/mutants/$name.confirm
-    python3 tools/mutants.py run $d/m${k}_patch.diff > work/mutants/$name.run 2>&1
-    grep "DETECTED-BY" work/mutants/$name.run
+    # demonstrations that need a non-default configuration
+    case $name in
+      C19_m1|C14_r2m1|C18_r2m2|C19_r2m1) feats="--demo-args --no-default-features\ --features\ std" ;;
+      C19_m2) feats="--demo-args --no-default-features\ --features\ alloc,libm" ;;
+      C19_r2m2) feats="--demo-args --no-default-features\ --features\ alloc,libm,dim_check_release" ;;
+      C01_r2m3) feats="--demo-args --release\ --features\ dim_check_release" ;;
+    esac
+    [ -d $d/m${k}_downstream ] && feats="$feats --aux-dir $d/m${k}_downstream"
+    envp=""
+    [ "$name" = "C16_r2m1" ] && envp='RUSTFLAGS=--cfg=rrtk_verif'
+    echo "=== $name ($feats $envp)"
+    if [ "${MODE:-both}" != run ]; then
+      eval env $envp python3 tools/mutants.py confirm $d/m${k}_patch.diff $d/m${k}_demo.rs $feats > work/mutants/$name.confirm 2>&1
+      tail -1 work/mutants/$name.confirm
+    fi
+    if [ "${MODE:-both}" != confirm ]; then
+      ch="$CHECKS"; [ "$CHECKS" = target ] && ch=$id
+      python3 tools/mutants.py run $d/m${k}_patch.diff $ch > work/mutants/$name.run 2>&1
+      grep "DETECTED-BY" work/mutants/$name.run
+    fi
   done
 done
